@@ -59,6 +59,8 @@ def run(ck, ctx):
                 calls = [c for c in ast.walk(fi.node) if isinstance(c, ast.Call) and
                          census.dotted(c.func).split(".")[-1] == "parse_units"]
                 for nm in names:
+                    if nm in vmap and vmap[nm][2] and not calls:
+                        continue         # keep the unit validator; other validators of the field are not its pair
                     vmap[nm] = (mode, fi, calls)
             for names, fi, deco in m.serializers:
                 for nm in names:
